@@ -1,16 +1,31 @@
 '''C14 Missing-value operations act per cell exactly as specified.'''
 from sfa.report import Ctx
+from sfa.rules import flowmisc
+from sfa.rules import narules
 from sfa.rules import table
+from sfa.rules import updaterules
 
 LEVEL_TEXT = (
-    'Static decision of structural clauses of C14: (a) the dtype-kind constant sets and the dispatch of isna_array (inexact -> isnan, NaT kinds -> isnat, other non-object -> all False, object -> (x != x) | (x == None)). Not decided: binary_transition / slices_from_targets arithmetic and limit counting across blocks.')
+    'Static decision of structural clauses of C14: (a) the dtype-kind constant sets and the dispatch of isna_array (inexact -> isnan, NaT kinds -> '
+    'isnat, other non-object -> all False, object -> (x != x) | (x == None)); (b) "never alters a non-missing cell": in each of the 7 fill routines every '
+    'store into the result array is addressed by an expression data-dependent on the isna_array mask of the data being filled (taint analysis); '
+    '(c) fillna / fillna_by_values pass the per-block isna masks of self, isna / notna are the (negated) isna_array per block, dropna keep-locations '
+    'are the negated condition over the unified isna mask and Frame / Series dropna select labels and data with those same keys; (d) edge fills: per path, '
+    'the leading / forward-bridging slice is slice(0, T[0]) and the trailing / backward one slice(T[-1] + 1, end) with T the positions of present cells, '
+    'chosen by the routine\'s own direction flag; (e) contradiction rule: within one loop all paths update the same carried counter cell the same way '
+    '(accumulate or define); (f) every fill / isna / notna interface of Series and Frame returns a container labelled by exactly the original index (and columns) and, for fills, the original name. Not decided: binary_transition / slices_from_targets arithmetic, limit counting across blocks beyond (e), count values.')
 
 CLAIM = dict(
     text=LEVEL_TEXT,
-    technique='constant-table and dispatch-chain extraction',
+    technique='taint dataflow from the isna mask to every store address + per-path symbolic-store check of edge slices + constant-table / dispatch extraction + update-kind contradiction rule',
     design_ref='DESIGN.md section 2.G and section 3 C14',
 )
 
 
 def run(ctx: Ctx) -> None:
     table.t3_kinds(ctx)
+    narules.mask_derived_stores(ctx)
+    narules.fill_targets(ctx)
+    narules.sided_slices(ctx)
+    flowmisc.accumulator_consistency(ctx)
+    updaterules.label_passthrough(ctx, only=('fillna', 'fillna_leading', 'fillna_trailing', 'fillna_forward', 'fillna_backward', 'isna', 'notna'), rule_suffix='na')
